@@ -401,6 +401,46 @@ pub fn run(ctx: &Ctx) -> (Stats, Report) {
     }
     st.section("generated_values_x_pictures", &mut mark);
 
+    // E1b: boundary / binary-boundary pool values of every type x fixed rich pictures (all the
+    // consistent redundant fields at once) + one generated picture per value
+    {
+        const RICH: [&[&str]; 6] = [
+            &["Day, DD Month YYYY DDD", "YYYY-MM-DD D", "DDD YYYY Dy MON"],
+            &["HH24:MI:SS.FF", "HH12:MI:SS.FF6 AM", "FF9 SS MI HH24"],
+            &["DAY, YYYY-MM-DD HH24:MI:SS.FF6", "Dy Mon DD HH:MI:SS.FF9 P.M. YYYY DDD", "YYYY DDD HH24 MI SS FF7 D"],
+            &["DAY, YYYY-MM-DD HH24:MI:SS", "Dy Month DD, YYYY HH12:MI:SS A.M. DDD", "YYYY DDD HH24 MI SS D"],
+            &["YYYY-MM", "YYYY MM"],
+            &["DD HH24:MI:SS.FF", "DD HH24 MI SS FF7"],
+        ];
+        for kind in KINDS {
+            let mut vals: Vec<i128> = crate::pools::pool(kind, seed, if ctx.thorough { 40_000 } else { 3000 }).into_iter().map(|v| v.raw).collect();
+            if matches!(kind, Kind::Ts | Kind::Ora) {
+                vals.extend(crate::pools::ts_binary_time_instants().into_iter().map(|x| if kind == Kind::Ora { x.div_euclid(US_PER_SEC) * US_PER_SEC } else { x }));
+            }
+            let vref = &vals;
+            let s = par_sweep(vals.len() as u64, 64, |range, st| {
+                for k in range {
+                    let raw = vref[k as usize];
+                    let (toks, _) = lossless_picture(kind, raw, &choices_from(seed ^ mix64(k ^ 0xe1b), 64));
+                    let gen_pic = gen::spell_all(&toks);
+                    for pic in RICH[kind.index()].iter().copied().chain(std::iter::once(gen_pic.as_str())) {
+                        if tokenize(pic).is_none() {
+                            continue;
+                        }
+                        st.evaluations += 1;
+                        st.fps.push(hash_bytes(hash_ints(kind.index() as u64 + 0x60, &[raw]), pic.as_bytes()));
+                        if let Err(m) = check_roundtrip(kind, raw, pic) {
+                            st.fail(k, case_of(kind, raw, pic), m);
+                            return;
+                        }
+                    }
+                }
+            });
+            st.merge(s);
+        }
+    }
+    st.section("pool_values_x_rich_pictures", &mut mark);
+
     // concurrent histories: 16 threads round-trip their own values at once
     {
         let iters = if ctx.thorough { 300_000 } else { 15_000 };
@@ -419,7 +459,7 @@ pub fn run(ctx: &Ctx) -> (Stats, Report) {
     st.section("concurrent_histories", &mut mark);
 
     let rep = Report {
-        rule: "Lossless picture grammar per type (4-digit year + month [number / abbreviated / full name in any style] + day, or year + day of year, optional consistent day-of-year and weekday fields; 24-hour or 12-hour + one of the meridian spellings; minute, second; fraction FF / FFp with p large enough for the value; interval year/day first then the other fields), fields permuted, separators drawn from \"\" - / : . , ; \\ T and blank runs with a non-empty separator forced after variable-width fields and between name fields. E1: all dates x generated pictures (fresh per 4096-date chunk), all seconds x generated pictures on Time/Timestamp/OracleDate; E2: proptest-generated values x pictures for all six types with shrinking. Oracle: parse(format(v,p),p) == v and format(that,p) == text byte for byte; the formatted text is also compared with the reference renderer so compensating errors cannot hide. Non-trivial = at least two value fields and one of: non-canonical order, a name field, 12-hour clock, extra consistency field, empty separator; distinct by (type, picture, value).".into(),
+        rule: "Lossless picture grammar per type (4-digit year + month [number / abbreviated / full name in any style] + day, or year + day of year, optional consistent day-of-year and weekday fields; 24-hour or 12-hour + one of the meridian spellings; minute, second; fraction FF / FFp with p large enough for the value; interval year/day first then the other fields), fields permuted, separators drawn from \"\" - / : . , ; \\ T and blank runs with a non-empty separator forced after variable-width fields and between name fields. E1: all dates x generated pictures (fresh per 4096-date chunk), all seconds x generated pictures on Time/Timestamp/OracleDate; E1b: boundary + binary-boundary pool values of every type (for Timestamp / OracleDate also times of day at 2^k us / ms / s and multiples of 2^31 / 2^32 us counted from midnight AND back from the next midnight, on boundary dates before and after 1970) x three fixed rich pictures carrying every consistent redundant field + one generated picture; E2: proptest-generated values x pictures for all six types with shrinking; concurrent histories (16 threads). Oracle: parse(format(v,p),p) == v and format(that,p) == text byte for byte; the formatted text is also compared with the reference renderer so compensating errors cannot hide. Non-trivial = at least two value fields and one of: non-canonical order, a name field, 12-hour clock, extra consistency field, empty separator; distinct by (type, picture, value).".into(),
         assumptions: vec!["bare FF is treated as variable width on input (up to nine digits are read), FFp as exactly p digits".into()],
         exhaustive: false,
         extra: Default::default(),
